@@ -323,7 +323,8 @@ struct Box
   vector<double> lo, hi;
   bool any;
   bool startOnBound;
-  Box() : c(), lo(), hi(), any(false), startOnBound(false) {}
+  bool outward;   // ... and the objective decreases towards the outside of that bound at the start (after C10-s14)
+  Box() : c(), lo(), hi(), any(false), startOnBound(false), outward(false) {}
   string text() const
   {
     string s;
@@ -333,7 +334,10 @@ struct Box
 };
 
 // refLo/refHi: per coordinate the smallest interval that must be inside (start and relevant minimiser)
-Box genBox(vrt::Rng& rng, const vector<double>& start, const vector<double>& minim, bool none, const vector<bool>* only = nullptr)
+// grad (optional): the gradient at the start.  Where the objective decreases towards the outside of a bound that may carry the start
+// (correlated objectives: the minimiser is on the inside, the steepest descent leaves the box), the start is put on that bound in
+// half of the cases instead of 12 %: the first direction of a gradient method is then blocked by the bound (after C10-s14).
+Box genBox(vrt::Rng& rng, const vector<double>& start, const vector<double>& minim, bool none, const vector<bool>* only = nullptr, const vector<double>* grad = nullptr)
 {
   Box b;
   size_t n = start.size();
@@ -354,10 +358,12 @@ Box genBox(vrt::Rng& rng, const vector<double>& start, const vector<double>& min
     double dl = rng.logReal(1e-3, 20), du = rng.logReal(1e-3, 20);
     bool il = rng.chance(0.5), iu = rng.chance(0.5);
     // start exactly on a closed bound (the minimiser always stays strictly inside)
-    if (rng.chance(0.12))
+    const bool out = grad && ((start[i] <= minim[i] && lower && (*grad)[i] > 0) || (start[i] > minim[i] && upper && (*grad)[i] < 0));
+    if (rng.chance(out ? 0.5 : 0.12))
     {
       if (start[i] <= minim[i] && lower) { dl = 0; il = true; b.startOnBound = true; }
       else if (start[i] > minim[i] && upper) { du = 0; iu = true; b.startOnBound = true; }
+      if (out) b.outward = true;
     }
     double lo = a - dl, hi = z + du;
     if (lower && upper) b.c[i] = make_shared<IntervalConstraint>(lo, hi, il, iu);
@@ -647,7 +653,7 @@ struct Ctx
       if (!parts[i].coords.empty() && parts[i].kind == DOWNHILL && parts[i].full && parts[i].coords.size() <= 2) return true;
     return false;
   }
-  string consClass() const { return !box.any ? "cons=none" : box.startOnBound ? "cons=start-on-bound" : "cons=some"; }
+  string consClass() const { return !box.any ? "cons=none" : box.outward ? "cons=start-on-bound-descent-outward" : box.startOnBound ? "cons=start-on-bound" : "cons=some"; }
   string copyClass() const { return copyMode == 1 ? ":clone" : copyMode == 2 ? ":copy-constructed" : copyMode == 3 ? (decoy ? ":assigned-over-configured" : ":assigned") : ""; }
   string copyText() const
   {
@@ -1177,7 +1183,10 @@ void judgeRunImpl(const Ctx& c, const vector<size_t>& coords, const RunResult& r
   }
 
   // (5) convergence: quadratic, constraints absent / removed / never approached, tolerance reported as reached
-  bool inactive = !constrained || c.policy == AutoParameter::CONSTRAINTS_IGNORE || !r.touched;
+  bool inactive = !constrained || c.policy == AutoParameter::CONSTRAINTS_IGNORE || !r.touched
+    // BFGS is the one optimiser with bound handling of its own (its direction is projected onto the box, Lo_/Up_): started on a bound with the
+    // minimiser strictly inside it must still arrive (after C10-s14).  The others rely on AutoParameter clipping and may stall along a bound.
+    || (c.kind == BFGS && c.box.startOnBound);
   if (c.pb.quad && inactive && c.generous)
   {
     if (!r.tolReached)
@@ -1325,7 +1334,12 @@ void caseMulti(vrt::Case& cs)
   c.start = genStart(rng, c.pb);
   c.variant = pickVariant(cs, c.pb);
   applyVariant(c.variant, c.pb, c.start);
-  c.box = genBox(rng, c.start, c.pb.m, rng.chance(0.35));
+  {
+    vector<double> g0(c.pb.n);
+    for (size_t i = 0; i < c.pb.n; ++i) g0[i] = c.pb.d1(c.start, i);
+    const bool none = rng.chance(0.35);
+    c.box = genBox(rng, c.start, c.pb.m, none, nullptr, &g0);
+  }
   c.policy = policyOf(rng.below(3));
   c.tol = pickTol(rng);
   pickBudget(rng, c);
@@ -1448,7 +1462,12 @@ void caseMeta(vrt::Case& cs)
   c.start = genStart(rng, c.pb);
   c.variant = pickVariant(cs, c.pb);
   applyVariant(c.variant, c.pb, c.start);
-  c.box = genBox(rng, c.start, c.pb.m, rng.chance(0.35));
+  {
+    vector<double> g0(c.pb.n);
+    for (size_t i = 0; i < c.pb.n; ++i) g0[i] = c.pb.d1(c.start, i);
+    const bool none = rng.chance(0.35);
+    c.box = genBox(rng, c.start, c.pb.m, none, nullptr, &g0);
+  }
   c.policy = policyOf(rng.below(3));
   c.tol = pickTol(rng);
   pickBudget(rng, c);
